@@ -41,7 +41,7 @@ func vxPlugins(code int32, key string, audit bool) []erpc.Plugin {
 
 // VX_C17_Call: client and server peers with the secure plugin; the harness
 // carries the frames between two scripted connections and inspects them.
-// args: secureMark(0 absent, 1 true), accept(0 absent, 1 "true", 2 "false"), sameKey(0/1), nBody[, otherPluginAfter(0/1)]
+// args: secureMark(0 absent, 1 true), accept(0 absent, 1 "true", 2 "false"), sameKey(0/1), nBody[, otherPluginAfter(0/1)[, explicitOKStatus(0/1)]]
 func VX_C17_Call(args []int) {
 	mark, accept, sameKey, nBody := args[0], args[1], args[2], args[3]
 	skey := vxKeyA
@@ -60,6 +60,9 @@ func VX_C17_Call(args []int) {
 	srv.SetUnknownCall(func(ctx erpc.UnknownCallCtx) (interface{}, *erpc.Status) {
 		handled++
 		seen = append([]byte{}, ctx.InputBodyBytes()...)
+		if len(args) > 5 && args[5] == 1 {
+			return result, erpc.NewStatus(erpc.CodeOK, "", "") // success reported with an explicit OK status
+		}
 		return result, nil
 	})
 	cconn := newVxConn("cli:1", "srv:1")
